@@ -548,7 +548,9 @@ protected:
         SegmentData(Segment &s) : slope(s.slope), intercept(s.intercept) {}
 
         inline size_t operator()(const K &origin, const K &k) const {
-            auto pos = int64_t(slope * (k - origin)) + intercept;
+            // saturate: the product may exceed the range of int64_t for keys far away from the segment
+            auto p = slope * (k - origin);
+            auto pos = (p < Floating(uint64_t(1) << 62) ? int64_t(p) : int64_t(1) << 62) + intercept;
             return pos > 0 ? size_t(pos) : 0ull;
         }
     };
